@@ -14,6 +14,7 @@ import (
 	"syscall"
 
 	libaudit "github.com/elastic/go-libaudit/v2"
+	"github.com/elastic/go-libaudit/v2/vshim/sched"
 
 	"verif/engine/guard"
 )
@@ -96,6 +97,8 @@ type Shape struct {
 	ForceEvents int    // this many unsolicited events in front of EVERY datagram (no deviation budget spent)
 	Errno       int    // when non-zero: the verdict menu is {0, Errno}
 	ErrnoAlways bool   // with Errno: every request is answered with it (no choice)
+	ExtAck      int    // extended acknowledgements (NETLINK_EXT_ACK): 1 = capped ACK (NLM_F_CAPPED|NLM_F_ACK_TLVS, no request payload echoed) followed by NLMSGERR_ATTR_MSG / ATTR_OFFS attributes, 2 = uncapped with attributes after the echoed request
+	SeqStart    uint32 // first sequence number the transport hands out is SeqStart+1 (0 = 100)
 	WrapErrors  int    // how receive failures are reported: 0 bare syscall.Errno, 1 fmt.Errorf("%w"), 2 *os.SyscallError
 }
 
@@ -135,6 +138,9 @@ type Sim struct {
 	CloseAnswers []syscall.Errno // menu for the result of Close (index 0 = default)
 	AckOnlyDevs  bool
 	Shape        Shape
+	seqInit      bool
+	// YieldAfterParse: see Receive
+	YieldAfterParse bool
 	// Guard: every datagram is handed to the parser with cap == len and its last byte on the last
 	// byte of a mapped page, the next page inaccessible: a read past the datagram faults (and
 	// panics: SetPanicOnFault) instead of seeing poison
@@ -192,6 +198,38 @@ func Ack(req *Sent, errno int) []byte {
 	return b
 }
 
+// ExtAck builds an extended acknowledgement as kernels with NETLINK_EXT_ACK send them: NLMSG_ERROR with
+// NLM_F_ACK_TLVS (and NLM_F_CAPPED when the request payload is not echoed), errno, the request header
+// (+ payload when not capped), then netlink attributes NLMSGERR_ATTR_MSG (1, a reason string) and
+// NLMSGERR_ATTR_OFFS (2, u32).
+func ExtAck(req *Sent, errno int, capped bool) []byte {
+	flags := uint16(0x200) // NLM_F_ACK_TLVS
+	body := make([]byte, 4)
+	binary.LittleEndian.PutUint32(body, uint32(int32(-errno)))
+	body = append(body, hdr(HdrLen+len(req.Data), req.Type, req.Flags, req.Seq, req.Pid)...)
+	if capped {
+		flags |= 0x100 // NLM_F_CAPPED
+	} else {
+		body = append(body, req.Data...)
+		for len(body)%4 != 0 {
+			body = append(body, 0)
+		}
+	}
+	attr := func(typ uint16, val []byte) []byte {
+		a := make([]byte, 4)
+		binary.LittleEndian.PutUint16(a[0:], uint16(4+len(val)))
+		binary.LittleEndian.PutUint16(a[2:], typ)
+		a = append(a, val...)
+		for len(a)%4 != 0 {
+			a = append(a, 0)
+		}
+		return a
+	}
+	body = append(body, attr(1, []byte("rule rejected: see dmesg\x00"))...)
+	body = append(body, attr(2, []byte{16, 0, 0, 0})...)
+	return append(hdr(HdrLen+len(body), NlmsgError, flags, req.Seq, req.Pid), body...)
+}
+
 // StatusBytes lays the 11 status fields out as struct audit_status.
 func (s *Sim) StatusBytes() []byte {
 	b := make([]byte, 44)
@@ -205,6 +243,10 @@ func (s *Sim) StatusBytes() []byte {
 func (s *Sim) Send(msg syscall.NetlinkMessage) (uint32, error) {
 	s.mu.Lock()
 	defer s.mu.Unlock()
+	if s.Shape.SeqStart != 0 && !s.seqInit {
+		s.seqInit = true
+		s.Seq = s.Shape.SeqStart
+	}
 	s.Seq++
 	req := &Sent{Seq: s.Seq, Type: msg.Header.Type, Flags: msg.Header.Flags, Pid: msg.Header.Pid, Data: append([]byte{}, msg.Data...)}
 	s.Sends = append(s.Sends, req)
@@ -223,7 +265,11 @@ func (s *Sim) Send(msg syscall.NetlinkMessage) (uint32, error) {
 	}
 	req.Errno = errno
 	if req.Flags&syscall.NLM_F_ACK != 0 || errno != 0 {
-		s.enqueue("ack", req.Seq, Ack(req, errno))
+		a := Ack(req, errno)
+		if s.Shape.ExtAck != 0 {
+			a = ExtAck(req, errno, s.Shape.ExtAck == 1)
+		}
+		s.enqueue("ack", req.Seq, a)
 	}
 	if errno != 0 {
 		return req.Seq, nil
@@ -417,6 +463,11 @@ func (s *Sim) Receive(nonBlocking bool, p libaudit.NetlinkParser) ([]syscall.Net
 		debug.SetPanicOnFault(true)
 	}
 	msgs, err := p(in)
+	// under the controlled scheduler: a scheduling point between the parser's return and the caller's use of
+	// what it returned (other clients of the process run here)
+	if s.YieldAfterParse {
+		sched.Yield("transport-after-parse")
+	}
 	if err != nil {
 		return nil, fmt.Errorf("failed to parse netlink messages (bytes_received=%v): %w", n, err)
 	}
